@@ -572,3 +572,34 @@ def check(model, rep):
     shared = closure_obligations(model, rep, 'R13.6', [load, fk_m] + list(tmc.methods.values()),
                                  'the URDF loader (joint poses kept as tm objects: exp / log of rotations, axis rotation) and Arm.FK')
     rep.floor('R13.6', 'shared primitives under the loader', len(shared), 6)
+    # ---------------------------------------------------------------- R13.7
+    # the limits the loader collected reach the arm as written: setJointProperties stores what it is given (value-preserving wrappers only)
+    rep.rule('R13.7', 'Arm.setJointProperties stores the joint limits it is given unchanged (the argument itself, or a copy / array / dtype conversion of it): '
+                      'the loaded arm reports - and FK clamps against - the limits written in the file')
+    sj = arm_cls.methods.get('setJointProperties')
+    if sj is None:
+        raise AnalysisError('anchor vanished: Arm.setJointProperties')
+
+    def _plain(e_):
+        # strip wrappers that keep every value: np.array / asarray / copy / astype(float) / reshape / flatten / list
+        while True:
+            if isinstance(e_, ast.Call) and isinstance(e_.func, ast.Attribute) and e_.func.attr in ('copy', 'astype', 'reshape', 'flatten', 'ravel') \
+                    and not (isinstance(e_.func.value, ast.Name) and e_.func.value.id in ('np', 'numpy', 'copy')):
+                e_ = e_.func.value
+            elif isinstance(e_, ast.Call) and norm_text(e_.func) in ('np.array', 'numpy.array', 'np.asarray', 'numpy.asarray', 'np.copy', 'numpy.copy', 'list', 'copy.copy',
+                                                                      'copy.deepcopy', 'np.ascontiguousarray', 'np.atleast_1d') and e_.args:
+                e_ = e_.args[0]
+            else:
+                return e_
+    n137 = 0
+    il137 = Inliner(sj)
+    for fld, want in (('joint_mins', None), ('joint_maxs', None)):
+        for st_ in [a_ for a_ in walk_own(sj.node) if isinstance(a_, ast.Assign) and any(norm_text(t_) == 'self.' + fld for t_ in a_.targets)]:
+            n137 += 1
+            core = _plain(il137.expand(st_.value))
+            ok_ = isinstance(core, ast.Name) and core.id in sj.params and fld.split('_')[1][:3] in core.id
+            rep.ob('R13.7', sj, 'self.%s = the limits given' % fld, ok_,
+                   'setJointProperties stores %s as self.%s: the limits of the loaded arm are no longer the ones written in the URDF (a joint declared with a range '
+                   'beyond that is reported - and clamped by FK - at other values, so in-limit joint values give the pose of another configuration)'
+                   % (norm_text(st_.value)[:70], fld), line=st_.lineno)
+    rep.floor('R13.7', 'limit stores of setJointProperties', n137, 2)
